@@ -197,6 +197,14 @@ func (a *actorState) run(ctx context.Context) {
 	}
 }
 
+// claimDirect is the opportunist's single operation (see the OnStep hook): ClaimAffinity for one block.
+func (a *actorState) claimDirect(ctx context.Context, cidr string) {
+	c := cnet.IPNet{IPNet: *mustCIDR(cidr)}
+	op := a.begin(opClaimAffinity, fmt.Sprintf("ClaimAffinity(%s, %s) [opportunist, atomic]", cidr, a.host))
+	claimed, failed, err := a.client.ClaimAffinity(ctx, c, ipam.AffinityConfig{AffinityType: ipam.AffinityTypeHost, Host: a.host})
+	a.end(op, fmt.Sprintf("claimed=%v failed=%v %s", claimed, failed, errStr(err)))
+}
+
 func (a *actorState) begin(kind opKind, desc string) *opExec {
 	w := a.w
 	a.opSeq++
